@@ -1186,7 +1186,7 @@ class AnswerRouteMonitor(GroundTruth):
                 r = self.req[f.h.e2e]
                 if f.h.ident() != r["ident"]:
                     continue
-                if f.result_code != 2001:
+                if f.result_code not in (2001, None):
                     continue            # the node's own error answers are judged by C07/C08
                 r["frames"].append(sid)
                 if sid != r["sid"]:
